@@ -241,6 +241,15 @@ pub fn generate(seed: u64, index: u64, cart_type: u8, rom_code: u8) -> Program {
     image[k * 8..k * 8 + v.bytes.len()].copy_from_slice(&v.bytes);
   }
 
+  // ---- "peek" in bank 0: fixed-bank code that reads the switchable window through an
+  // absolute address (the second byte of the per-bank routine: different in every bank)
+  {
+    let mut v = Asm::new(0x0fc0);
+    v.b(&[0xfa, 0x01, 0x40]); // LD A,(0x4001)
+    v.b(&[0x81, 0x4f, 0xc9]); // ADD A,C; LD C,A; RET
+    image[0x0fc0..0x0fc0 + v.bytes.len()].copy_from_slice(&v.bytes);
+  }
+
   // ---- entry and init
   image[0x100] = 0x00;
   image[0x101] = 0xc3;
@@ -434,6 +443,9 @@ pub fn generate(seed: u64, index: u64, cart_type: u8, rom_code: u8) -> Program {
           a.ld_a_to(0x2000 + rng.below(0x2000) as u16);
           let r = rng.below(nbank_routines as u64) as usize;
           a.call(bank_routine_addr[r]);
+          if rng.chance(1, 2) {
+            a.call(0x0fc0); // peek into the bank just mapped, from bank-0 code
+          }
           f.bank_switches += 1;
           desc.push_str("bank ");
         }
